@@ -13,6 +13,7 @@ package serialization
 
 import (
 	"bufio"
+	"bytes"
 	"encoding/json"
 	"fmt"
 	"hash/fnv"
@@ -84,6 +85,28 @@ func init() {
 	_ = GenericRegister[vfStSliceInt]("vf_st_sliceint")
 	_ = GenericRegister[vfStPSliceInt]("vf_st_psliceint")
 	_ = GenericRegister[vfStMapStrAny]("vf_st_mapstrany")
+}
+
+// "stc T": types with the field name F of the corresponding registered struct{F T; Z int}; their registration is ATTEMPTED under
+// the name that struct already holds and must be refused (the error is ignored, as the library does with `_ = GenericRegister`)
+type vfCfInt struct{ F int }
+type vfCfAny struct{ F any }
+type vfCfPInt struct{ F *int }
+type vfCfSliceInt struct{ F []int }
+
+var vfCfRefused = map[string]bool{}
+var vfCfOfField = map[reflect.Type]reflect.Type{} // field type -> conflicting type
+var vfCfField = map[reflect.Type]reflect.Type{}   // conflicting type -> field type
+
+func init() {
+	vfCfRefused["vf_st_int"] = GenericRegister[vfCfInt]("vf_st_int") != nil
+	vfCfRefused["vf_st_any"] = GenericRegister[vfCfAny]("vf_st_any") != nil
+	vfCfRefused["vf_st_pint"] = GenericRegister[vfCfPInt]("vf_st_pint") != nil
+	vfCfRefused["vf_st_sliceint"] = GenericRegister[vfCfSliceInt]("vf_st_sliceint") != nil
+	for _, ct := range []reflect.Type{reflect.TypeOf(vfCfInt{}), reflect.TypeOf(vfCfAny{}), reflect.TypeOf(vfCfPInt{}), reflect.TypeOf(vfCfSliceInt{})} {
+		vfCfOfField[ct.Field(0).Type] = ct
+		vfCfField[ct] = ct.Field(0).Type
+	}
 }
 
 var vfAnyType = reflect.TypeOf((*any)(nil)).Elem()
@@ -214,6 +237,12 @@ func (c *vfCtx) typeOf(toks []string) reflect.Type {
 		return reflect.MapOf(kt, c.typeOf(toks[1:]))
 	case tok == "st":
 		return vfStructType(c.typeOf(toks[1:]))
+	case tok == "stc":
+		ct, ok := vfCfOfField[c.typeOf(toks[1:])]
+		if !ok {
+			panic("vf: no conflicting type declared for field type " + strings.Join(toks[1:], "."))
+		}
+		return ct
 	}
 	if tok == "int" && c.intKind != "" {
 		tok = c.intKind
@@ -245,6 +274,9 @@ func vfTokens(t reflect.Type) []string {
 	case reflect.Struct:
 		if ft, ok := vfStructOfField[t]; ok {
 			return append([]string{"st"}, vfTokens(ft)...)
+		}
+		if ft, ok := vfCfField[t]; ok {
+			return append([]string{"stc"}, vfTokens(ft)...)
 		}
 	}
 	return []string{"go:" + t.String()}
@@ -354,8 +386,9 @@ func (c *vfCtx) build(a *vfAbs) reflect.Value {
 		return mv
 	case "st":
 		s := reflect.New(t).Elem()
-		s.Field(0).Set(c.buildInto(t.Field(0).Type, a.Kids[0]))
-		s.Field(1).Set(c.buildInto(t.Field(1).Type, a.Kids[1]))
+		for i := range a.Kids {
+			s.Field(i).Set(c.buildInto(t.Field(i).Type, a.Kids[i]))
+		}
 		return s
 	case "leaf":
 		tok := vfBaseTokens[t]
@@ -618,6 +651,7 @@ func TestVerifSer(t *testing.T) {
 	if casesPath == "" || outPath == "" {
 		t.Skip("VERIF_CASES / VERIF_OUT not set")
 	}
+	t.Logf("verif: conflicting registrations refused: %v", vfCfRefused)
 	seed, _ := strconv.ParseInt(os.Getenv("VERIF_SEED"), 10, 64)
 	variants, _ := strconv.Atoi(os.Getenv("VERIF_VARIANTS"))
 	if variants <= 0 {
@@ -660,7 +694,8 @@ func TestVerifSer(t *testing.T) {
 			ctx := &vfCtx{rnd: rand.New(rand.NewSource(seed*1000003 + int64(h.Sum32())*31 + int64(k)))}
 			ctx.intKind = c.IntKind
 			if ctx.intKind == "" {
-				if k == 0 {
+				if k == 0 || bytes.Contains(line, []byte(`"stc"`)) { // conflicting types are declared for int fields only
+
 					ctx.intKind = "int"
 				} else {
 					ctx.intKind = vfIntKinds[ctx.rnd.Intn(len(vfIntKinds))]
